@@ -48,6 +48,7 @@ def make(case):
         obj.add_variable('B', [i % 2 == 0 for i in range(n)] if n else True, dtype=bool)
         obj.add_variable('S', ['s%d' % i for i in range(n)] if n else 'ab', dtype='<U2')
         obj.add_variable('T', 'longer text')
+        obj.add_variable('U8', list(range(n)), dtype=np.uint8)
         obj.add_attribute('note', ['a', 'list'])
         return obj
     bases = (PandasIndexFeaturesMixin, fsic.BaseModel) if kind == 'pandas-mixin' else (fsic.BaseModel,)
@@ -68,6 +69,7 @@ def make(case):
     obj.add_variable('N', list(range(10, 10 + n)), dtype=int)
     obj.add_variable('B', True, dtype=bool)
     obj.add_variable('S', 'ab', dtype='<U2')
+    obj.add_variable('U16', list(range(n)), dtype=np.uint16)
     solved = case.get('solved', 0)
     if solved and n >= 2:
         end = span[n - 1] if solved == 2 else span[max(1, n // 2)]
@@ -81,7 +83,7 @@ def cast_fill(value, dtype):
     if k == 'f':
         return float(value)
     if k in 'iu':
-        return int(value)
+        return np.full(1, int(value), dtype=dtype)[0].item()    # OverflowError if the dtype cannot hold it
     if k == 'b':
         return bool(value)
     if k == 'U':
@@ -145,7 +147,7 @@ def check_case(case):
             fill = DEFAULTS[arr.dtype.kind]
         try:
             f = cast_fill(fill, arr.dtype)
-        except (ValueError, TypeError):
+        except (ValueError, TypeError, OverflowError):
             castable = False
             break
         expected[nm] = [arr[p] if p is not None else f for p in positions]
